@@ -124,6 +124,14 @@ package chain
 //@     ite(k in b.mb.db.dels[b.mb.name], nil, bucketVal(b.db, k)))
 //@ pred cacheInv(b cacheBucket) = memInv(b.mb.db) && b.db != nil && (forall k string :: !(k in b.mb.db.buckets[b.mb.name]))
 //
+// CacheDB.Flush / Cancel: whatever the cache layer holds (also nothing: buckets are created in
+// the backend directly), the backend's own Flush / Cancel is reached and its result returned.
+//@ func (*CacheDB).Flush props C17
+//@   requires db != nil && db.mem != nil && db.db != nil && db.kvs != nil
+//@   ensures [backend-flushed] called("DB.Flush") && result == callres("DB.Flush")
+//@ func (*CacheDB).Cancel props C17
+//@   requires db != nil && db.mem != nil && db.db != nil && memInv(db.mem)
+//@   ensures [both-cancelled] called("MemDB).Cancel") && called("DB.Cancel")
 //@ func (cacheBucket).Get props C17
 //@   nopanic
 //@   requires cacheInv(b)
